@@ -8,7 +8,7 @@ PROP = "C06"
 LEVEL = "exploration"
 SHARDS = {"quick": 8, "thorough": 16}
 TIMEOUT = {"quick": 900, "thorough": 7200}
-REQUIRED = {"generate": 40, "rows_decoded": 40, "json_roundtrip": 40, "wasabi": 40}
+REQUIRED = {"generate": 40, "rows_decoded": 40, "json_roundtrip": 40, "wasabi": 40, "sequence": 100}
 RULE = ("wallets from random secrets through all constructors x both networks x accounts {0,1,2^31-2,2^31-1,random} x "
         "intervals {(0,0),(0,1),(7,8),(s,s+r),(2^31-3,2^31-1),(2^31-1,2^31)} inside [0,2^31), 0..40 rows; everything recomputed "
         "from the seed by the reference model; distinct = distinct (monitor, case) digests; a wallet is non-trivial when it "
@@ -170,6 +170,58 @@ def judge_wallet(ctx, case):
     ctx.judge("wasabi", not wbad, case, None, wbad, cls="wasabi|" + ("test" if tn else "main"), mech="C06.wasabi." + (wbad[0][0] if wbad else ""))
 
 
+def judge_sequence(ctx, case):
+    """Several generate()/json() requests on the SAME wallet object (overlapping, lower-starting, repeated intervals and
+    changing accounts): every answer must still be the one for its own (account, interval)."""
+    try:
+        w, m, mn, pw, tn = build_wallet(case)
+    except Exception as ex:  # noqa
+        return ctx.judge("sequence", False, case, "wallet", ex, cls="seq|raised", mech="C06.sequence.raised")
+    for step, (acct, s, e, via) in enumerate(case["steps"]):
+        try:
+            if via == "json":
+                data = json.loads(w.json(data=w.generate(account=acct, interval=(s, e))))
+            elif via in ("bip44", "bip49", "bip84"):
+                keys, rows = getattr(w, via)(account=acct, interval=(s, e))
+                data = {"BIP" + via[3:]: {"account_extended_keys": keys, "groups": rows}}
+            else:
+                data = w.generate(account=acct, interval=(s, e))
+        except Exception as ex:  # noqa
+            ctx.judge("sequence", False, dict(case, step=step), "dict", ex, cls="seq|raised", mech="C06.sequence.raised")
+            continue
+        exp = rpaper.generate(m, tn, acct, s, e, mn, pw, with_bip85=False)
+        if via in ("bip44", "bip49", "bip84"):
+            exp = {k: v for k, v in exp.items() if k == "BIP" + via[3:]}
+        got = {k: v for k, v in json.loads(json.dumps(data)).items() if k != "BIP85"}
+        d = rpaper.diff(json.loads(json.dumps(exp)), got)
+        ctx.judge("sequence", not d, dict(case, step=step), None, d[:3], cls="seq|step%d|%s" % (min(step, 3), via),
+                  mech="C06.sequence." + (d[0][0].strip("/").split("/")[-1] if d else ""))
+        ctx.extra["rows_checked"] = ctx.extra.get("rows_checked", 0) + 3 * max(0, e - s)
+
+
+def gen_sequence(rnd, j):
+    case = gen_case(rnd, j)
+    base = rnd.choice([0, 0, 3, 1000, H - 12])
+    acct = case["account"]
+    steps = []
+    for k in range(rnd.randrange(2, 5)):
+        r = rnd.random()
+        if r < 0.35:
+            s = base + rnd.randrange(3, 7)
+            e = s + rnd.randrange(1, 4)
+        elif r < 0.7:
+            s = base + rnd.randrange(0, 3)         # starts below what was derived before, overlaps it
+            e = s + rnd.randrange(2, 9)
+        elif r < 0.85:
+            s = e = base + rnd.randrange(0, 5)     # empty
+        else:
+            s, e = base, base + 2
+        a = acct if rnd.random() < 0.8 else (acct + 1) % H
+        steps.append((a, s, min(e, H), rnd.choice(["generate", "generate", "json", "bip44", "bip49", "bip84"])))
+    case["steps"] = steps
+    return case
+
+
 def gen_case(rnd, j):
     route = ["from_mnemonic", "from_entropy_hex", "from_bip39_seed_bytes", "from_bip39_seed_hex", "from_extended_key"][j % 5]
     case = {"route": route, "testnet": bool((j // 5) & 1)}
@@ -211,7 +263,14 @@ def run(ctx):
     total = ctx.scale(160, 5000)
     for j in range(total):
         judge_wallet(ctx, gen_case(rnd, j + ctx.shard * 7))
+    for j in range(ctx.scale(96, 4000)):
+        judge_sequence(ctx, gen_sequence(rnd, j + ctx.shard * 3))
 
 
 def replay(ctx, monitor, case):
-    judge_wallet(ctx, case)
+    if monitor == "sequence":
+        case.pop("step", None)
+        case["steps"] = [tuple(x) for x in case["steps"]]
+        judge_sequence(ctx, case)
+    else:
+        judge_wallet(ctx, case)
